@@ -1,5 +1,5 @@
 (* C19: delivery and error policy of the dispatch model (Engine/Dispatcher.v), for all histories. *)
-From Coq Require Import List Arith Bool Lia.
+From Coq Require Import List Arith Bool Lia Sorted.
 From BV Require Import Base.Prelude Engine.Dispatcher Proofs.Dispatcher.
 Import ListNotations.
 
@@ -593,3 +593,93 @@ Proof.
   destruct (run_from {| dsp := d_set_ignore (dsp re0) true; temp := temp re0 |} h) as [a' b'].
   cbn [snd] in *. now rewrite Q.
 Qed.
+
+(* ------------------------------------------------------------------ subscription order in the specification *)
+
+(* the live list is always in the order the subscriptions were made: tokens strictly increase along it *)
+Definition ordered (s : spec_st) : Prop :=
+  StronglySorted lt (map s_tok (live s)) /\ forall x, In x (live s) -> s_tok x < next_tok s.
+
+Lemma sorted_filter {A} (f : A -> nat) (p : A -> bool) (l : list A) :
+  StronglySorted lt (map f l) -> StronglySorted lt (map f (filter p l)).
+Proof.
+  induction l as [|a l IH]; cbn; intros H; [constructor|].
+  inversion H as [|? ? Hs Hf]; subst. destruct (p a); cbn; [|now apply IH].
+  constructor; [now apply IH|]. rewrite Forall_forall in *. intros y Hy. apply Hf.
+  apply in_map_iff in Hy as [x [<- Hx]]. apply in_map. apply filter_In in Hx; tauto.
+Qed.
+
+Lemma sorted_snoc : forall l n, StronglySorted lt l -> (forall x, In x l -> x < n) -> StronglySorted lt (l ++ [n]).
+Proof.
+  induction l as [|a l IH]; cbn; intros n Hs Hb; [repeat constructor|].
+  inversion Hs as [|? ? Hs' Hf]; subst. constructor; [apply IH; auto|].
+  rewrite Forall_forall in *. intros y Hy. apply in_app_or in Hy as [Hy|[<-|[]]]; [now apply Hf | apply Hb; now left].
+Qed.
+
+Lemma ordered_subscribe : forall s f n tmp, ordered s -> ordered (fst (sp_subscribe s f n tmp)).
+Proof.
+  intros s f n tmp [H1 H2]. destruct (subname_dec_bad n) as [->|Hn]; [split; assumption|].
+  assert (E : fst (sp_subscribe s f n tmp) =
+              {| live := live s ++ [{| s_tok := next_tok s; s_fn := f; s_name := n; s_temp := tmp |}];
+                 next_tok := S (next_tok s); sp_ign := sp_ign s |}) by (destruct n; try congruence; reflexivity).
+  rewrite E. split; cbn.
+  - rewrite map_app. cbn. apply sorted_snoc; [exact H1|]. intros x Hx. apply in_map_iff in Hx as [y [<- Hy]]. now apply H2.
+  - intros x Hx. apply in_app_or in Hx as [Hx|[<-|[]]]; [apply H2 in Hx; lia | cbn; lia].
+Qed.
+
+Lemma ordered_filter : forall s p, ordered s ->
+  ordered {| live := filter p (live s); next_tok := next_tok s; sp_ign := sp_ign s |}.
+Proof.
+  intros s p [H1 H2]. split; cbn.
+  - now apply sorted_filter.
+  - intros x Hx. apply filter_In in Hx as [Hx _]. now apply H2.
+Qed.
+
+Lemma ordered_subscribe_temps : forall l s, ordered s -> ordered (sp_subscribe_temps s l).
+Proof. induction l as [|[n f] l IH]; intros s H; cbn; [exact H|]. apply IH. now apply ordered_subscribe. Qed.
+
+Lemma ordered_run_plan : forall plan s c ems toks, ordered s ->
+  ordered (fst (fst (fst (fst (sp_run_plan s c plan ems toks))))).
+Proof.
+  induction plan as [|m plan IH]; intros s c ems toks H; [exact H|].
+  assert (Hdata : forall a, ordered (fst (fst (fst (fst (match a with
+        | ASkip => sp_run_plan s c plan ems toks
+        | AIllegal => (s, c, ems, toks, Some ExIllegal)
+        | AEmit during ds after =>
+            match emit_all (sp_process s) ds with
+            | (es, None) => sp_run_plan s after plan (ems ++ es) toks
+            | (es, Some e) => (s, during, ems ++ es, toks, Some e)
+            end
+        end)))))).
+  { intros [during ds after| |]; [destruct (emit_all (sp_process s) ds) as [es [e|]]; [exact H | now apply IH]
+                                 | exact H | now apply IH]. }
+  destruct m; cbn [sp_run_plan]; try apply Hdata.
+  - pose proof (ordered_subscribe s f n true H) as H1.
+    destruct (sp_subscribe s f n true) as [s1 [t|]]; cbn [fst] in *; [now apply IH | exact H1].
+  - pose proof (ordered_filter s (fun x => negb (s_tok x =? t)) H) as H1.
+    destruct (existsb _ (live s)); [now apply IH | exact H1].
+Qed.
+
+Lemma ordered_step : forall s o, ordered s -> ordered (fst (sp_step s o)).
+Proof.
+  intros s o H. destruct o; cbn [sp_step].
+  - pose proof (ordered_subscribe s f n false H) as H1. destruct (sp_subscribe s f n false) as [s1 [t|]]; exact H1.
+  - now apply (ordered_filter s).
+  - exact H.
+  - unfold sp_run_call. destruct (normalize_subs subs) as [l|]; [|exact H].
+    pose proof (ordered_run_plan plan _ cstate0 [] [] (ordered_subscribe_temps l s H)) as H1.
+    destruct (sp_run_plan (sp_subscribe_temps s l) cstate0 plan [] []) as [[[[s3 c] ems] toks] x]. cbn [fst] in H1.
+    destruct (emit_all (sp_process s3) _) as [es y]. cbn [fst]. now apply (ordered_filter s3).
+  - split; cbn; [constructor | intros x []].
+  - split; cbn; [constructor | intros x []].
+Qed.
+
+Theorem spec_subscription_order : forall h s, ordered s -> ordered (fst (sp_run_from s h)).
+Proof.
+  induction h as [|o h IH]; intros s H; [exact H|]. cbn [sp_run_from].
+  pose proof (ordered_step s o H) as H1. destruct (sp_step s o) as [s1 ob]. cbn [fst] in H1.
+  pose proof (IH s1 H1) as H2. destruct (sp_run_from s1 h) as [s2 obs']. exact H2.
+Qed.
+
+Lemma ordered0 : ordered spec0.
+Proof. split; cbn; [constructor | intros x []]. Qed.
